@@ -980,3 +980,144 @@ Proof.
               apply bind_safe; [apply add_bytes_safe|intros]. apply bind_safe; [apply add_bytes_safe|intros].
               apply IH; [lia|]. destruct r3; cbn [tok_room length] in *; lia.
 Qed.
+
+Lemma cstr_len : forall s r, cstr s = Some r -> (length r <= length s)%nat.
+Proof.
+  induction s as [|c t IH]; intros r H; cbn [cstr] in H; [discriminate|].
+  destruct (c =? 0); [inversion H; subst; simpl; lia|].
+  destruct (cstr t) as [r'|]; [|discriminate]. inversion H; subst. specialize (IH r' eq_refl). simpl. lia.
+Qed.
+Lemma cstr_or_all_len s : (length (cstr_or_all s) <= length s)%nat.
+Proof. unfold cstr_or_all. destruct (cstr s) eqn:E; [apply cstr_len; exact E|lia]. Qed.
+Lemma drop_blanks_len : forall r, (length (drop_blanks r) <= length r)%nat.
+Proof. induction r as [|c t IH]; simpl; [lia|]. destruct (c =? 32); simpl; lia. Qed.
+Lemma c_string_len s n : (length (c_string s n) <= n)%nat.
+Proof.
+  unfold c_string. rewrite rev_length.
+  eapply Nat.le_trans; [apply drop_blanks_len|]. rewrite rev_length.
+  eapply Nat.le_trans; [apply cstr_or_all_len|]. apply firstn_le_length.
+Qed.
+
+Lemma eval_dtype_safe12 dtype : safe (eval_dtype R f dtype 12).
+Proof.
+  unfold eval_dtype. destruct (map upc (c_string dtype 32)) as [|c s] eqn:E; [exact I|].
+  apply bind_safe; [apply read_file_header_safe|intros h _].
+  apply dt_parse_safe12; [lia|]. cbn [tok_room].
+  pose proof (c_string_len dtype 32) as L. rewrite <- (map_length upc), E in L. lia.
+Qed.
+
+(* ADFI_string_2_C_string cuts trailing blanks only: what it returns is a prefix of its argument (up to the NUL), and
+   what it cuts is blank *)
+Lemma drop_blanks_split : forall r, exists b, r = b ++ drop_blanks r /\ Forall (fun c => c = 32) b.
+Proof.
+  induction r as [|c t (b & E & F)]; [exists []; split; [reflexivity|constructor]|].
+  cbn [drop_blanks]. destruct (Z.eqb_spec c 32) as [->|N].
+  - exists (32 :: b). split; [simpl; f_equal; exact E|constructor; [reflexivity|exact F]].
+  - exists []. split; [reflexivity|constructor].
+Qed.
+Lemma strip_prefix l : exists t, l = rev (drop_blanks (rev l)) ++ t /\ Forall (fun c => c = 32) t.
+Proof.
+  destruct (drop_blanks_split (rev l)) as (b & E & F). exists (rev b). split.
+  - rewrite <- rev_app_distr, <- E, rev_involutive. reflexivity.
+  - apply Forall_rev. exact F.
+Qed.
+
+(* the data type of a link node accepted by repair 03: "LK", or "LK" and a blank before anything else *)
+Lemma lk_shape t : nth 0 t 0 = 76 -> nth 1 t 0 = 75 -> (nth 2 t 0 = 32 \/ nth 2 t 0 = 0) ->
+  map upc (c_string t 32) = [76; 75] \/ exists w, map upc (c_string t 32) = 76 :: 75 :: 32 :: w.
+Proof.
+  intros H0 H1 H2. destruct t as [|a [|b [|c u]]]; cbn [nth] in *; try discriminate.
+  - subst. left. reflexivity.
+  - subst a b. unfold c_string.
+    assert (S : exists w, cstr_or_all (firstn 32 (76 :: 75 :: c :: u)) = [76; 75] \/
+                          cstr_or_all (firstn 32 (76 :: 75 :: c :: u)) = 76 :: 75 :: 32 :: w).
+    { destruct H2 as [->| ->].
+      - change (firstn 32 (76 :: 75 :: 32 :: u)) with (76 :: 75 :: 32 :: firstn 29 u).
+        unfold cstr_or_all. cbn [cstr Z.eqb]. change (76 =? 0) with false. change (75 =? 0) with false. change (32 =? 0) with false.
+        cbv iota. destruct (cstr (firstn 29 u)) as [r|]; cbn [option_map]; eauto.
+      - exists []. left. reflexivity. }
+    destruct S as (w & [E|E]); rewrite E; [left; reflexivity|].
+    destruct (strip_prefix (76 :: 75 :: 32 :: w)) as (tl & Es & Fb).
+    destruct (rev (drop_blanks (rev (76 :: 75 :: 32 :: w)))) as [|x [|y [|z p]]]; cbn [app] in Es.
+    + subst tl. inversion Fb; subst. discriminate.
+    + inversion Es; subst. inversion Fb; subst. discriminate.
+    + inversion Es; subst. left. reflexivity.
+    + inversion Es; subst. right. eexists. reflexivity.
+Qed.
+
+(* with such a type ADFI_evaluate_datatype stores one token and the terminator: tokenized_data_type[2] is enough *)
+Lemma dt_parse_safe_lk sz s fu : (s = [76; 75] \/ exists w, s = 76 :: 75 :: 32 :: w) ->
+  safe (dt_parse R (S (S fu)) sz 2 s true 0 0 0 true).
+Proof.
+  intros [->|(w & ->)].
+  - cbn [dt_parse nth tl]. change ((76 =? 77) && (75 =? 84)) with false. cbv iota.
+    destruct (dt_sizes sz 76 75) as [[sf sm]|]; [|exact I]. change (0 >=? 2) with false. cbv iota.
+    apply bind_safe; [apply add_bytes_safe|intros]. apply bind_safe; [apply add_bytes_safe|intros]. exact I.
+  - cbn [dt_parse nth tl]. change ((76 =? 77) && (75 =? 84)) with false. cbv iota.
+    destruct (dt_sizes sz 76 75) as [[sf sm]|]; [|exact I]. change (0 >=? 2) with false. cbv iota.
+    change (32 =? 91) with false. change (32 =? 44) with false. exact I.
+Qed.
+
+(* ---- data *)
+Lemma read_data_chunk_safe p fb teq cb st total room site :
+  (direct_read_ok R f teq = true -> total <= room) -> safe (read_data_chunk R f p fb teq cb st total room site).
+Proof.
+  intros Hd. unfold read_data_chunk. destruct (_ >? cb); [exact I|].
+  apply bind_safe; [apply read_chunk_length_safe|intros [tag e] _]. destruct (negb _); [exact I|].
+  apply bind_safe; [apply read_file_safe|intros t _]. destruct (negb _); [exact I|].
+  apply bind_safe; [apply adjust_safe|intros ds _]. destruct (cb >? _); [exact I|].
+  destruct (direct_read_ok R f teq).
+  - apply bind_safe; [apply read_file_safe|intros d _]. specialize (Hd eq_refl).
+    destruct (Z.gtb_spec total room); [lia|exact I].
+  - destruct (_ && _); [|exact I]. destruct (_ =? 0); [exact I|].
+    apply bind_safe; [apply read_file_safe|intros; exact I].
+Qed.
+
+(* direct copy under repair 14 means: every token of the type has the machine's size; in particular the totals agree *)
+Lemma direct_teq teq : direct_read_ok R f teq = true -> teq = true.
+Proof. unfold direct_read_ok. cbn [fx_sizes repaired]. destruct (_ =? 76); [cbn; auto|discriminate]. Qed.
+
+Lemma dct_step_safe n cap : n <= cap -> forall s r, dct_step R f n cap s = inr r -> safe r.
+Proof.
+  intros Hn [[i cur] acc] r. unfold dct_step. destruct (Z.geb_spec i n) as [Hi|Hi]; [intros H; inversion H; exact I|].
+  match goal with |- match ?X with _ => _ end = _ -> _ => assert (HS : safe X); [|destruct X; intros H; inversion H; subst; simpl in *; auto] end.
+  apply bind_safe; [apply adjust_safe|intros cur1 _]. apply bind_safe; [apply rdpfd_safe|intros s _].
+  destruct (Z.geb_spec i cap); [lia|]. apply bind_safe; [apply adjust_safe|intros cur2 _].
+  apply bind_safe; [apply rdpfd_safe|intros; exact I].
+Qed.
+
+Lemma dct_loop_post n cap : forall fuel st tbl,
+  (let '(i, cur, acc) := st in i = Z.of_nat (length acc) /\ 0 <= i <= n) -> n <= cap ->
+  loopN (dct_step R f n cap) fuel st = inr (Ok tbl) -> Z.of_nat (length tbl) = n.
+Proof.
+  induction fuel as [|fuel IH]; intros [[i cur] acc] tbl (Hi & Hr) Hn H; cbn [loopN] in H; [discriminate|].
+  unfold dct_step in H at 1. destruct (Z.geb_spec i n) as [G|G].
+  - inversion H; subst. rewrite rev_length. lia.
+  - match type of H with match (match ?X with _ => _ end) with _ => _ end = _ => destruct X as [[[i' cur'] acc']| | | | | | | | |] eqn:E end;
+      try discriminate.
+    apply (IH (i', cur', acc') tbl); [|exact Hn|exact H].
+    apply bind_ok in E. destruct E as (cur1 & _ & E). apply bind_ok in E. destruct E as (s & _ & E).
+    destruct (Z.geb_spec i cap); [discriminate|].
+    apply bind_ok in E. destruct E as (cur2 & _ & E). apply bind_ok in E. destruct E as (en & _ & E).
+    inversion E; subst. cbn [length]. rewrite Nat2Z.inj_succ. lia.
+Qed.
+
+Lemma read_dct_safe p cap : safe (read_dct R f p cap).
+Proof.
+  unfold read_dct. apply bind_safe; [apply read_chunk_length_safe|intros [tag e] _]. destruct (negb _); [exact I|].
+  cbn [fx_dct repaired andb]. destruct (Z.eqb_spec (dct_count p e) cap) as [E|E]; cbn [negb]; [|exact I].
+  apply bind_safe; [apply of_loop_safe; apply dct_step_safe; lia|intros tbl _].
+  apply bind_safe; [apply read_file_safe|intros t _]. destruct (negb _); exact I.
+Qed.
+
+Lemma read_dct_length p cap tbl : 0 <= cap -> read_dct R f p cap = Ok tbl -> Z.of_nat (length tbl) = cap.
+Proof.
+  unfold read_dct. intros Hc H. apply bind_ok in H. destruct H as ([tag e] & _ & H).
+  destruct (negb (tag_eq_ci tag tag_DCtb)); [discriminate|].
+  cbn [fx_dct repaired andb] in H. destruct (Z.eqb_spec (dct_count p e) cap) as [E|E]; cbn [negb] in H; [|discriminate].
+  apply bind_ok in H. destruct H as (tb & HL & H).
+  apply bind_ok in H. destruct H as (t & _ & H). destruct (negb (tag_eq_ci t tag_dcTE)); [discriminate|]. inversion H; subst tb.
+  destruct (loopN (dct_step R f (dct_count p e) cap) (Z.to_nat (f_len f / 24) + 2) (0, (fst p, snd p + 4), [])) as [s|r] eqn:EL;
+    [discriminate|]. cbn [of_loop] in HL. subst r. rewrite <- E.
+  eapply dct_loop_post; [| |exact EL]; [cbn; lia|lia].
+Qed.
